@@ -54,8 +54,11 @@ def install(lw):
             if list(self.inputs) != list(inputs) or list(self.outputs) != list(outputs):
                 circmon.report("C17", "SimulationResult.inputs/outputs differ from what it was built with",
                                monitor="SimulationResult.__init__", mechanism="simres_lists")
-            last_i = {s: k for k, s in enumerate(self.inputs)}
-            last_o = {s: k for k, s in enumerate(self.outputs)}
+            # (keyed by the occupation lists themselves, not by State.__eq__ / __hash__, which are under test too)
+            def occ_(st_):
+                return tuple(int(x_) for x_ in st_)
+            last_i = {occ_(s): k for k, s in enumerate(self.inputs)}
+            last_o = {occ_(s): k for k, s in enumerate(self.outputs)}
             for i in self.inputs:
                 # the documented one-element / (input, None) forms of pair indexing give the whole row
                 if dict(self[(i,)]) != dict(self[i]) or dict(self[i, None]) != dict(self[i]):
@@ -65,7 +68,7 @@ def install(lw):
             for k, i in enumerate(self.inputs):
                 for l, o in enumerate(self.outputs):
                     # with duplicate states in a list the dictionary keeps the last one
-                    want = arr[last_i[i], last_o[o]]
+                    want = arr[last_i[occ_(i)], last_o[occ_(o)]]
                     a, b = self[i, o], self[i][o]
                     if not (a == want or (a != a and want != want)) or not (b == want or (b != b and want != want)):
                         circmon.report("C17", f"r[i,o]={a!r}, r[i][o]={b!r}, array[{k},{l}]={arr[k, l]!r} for "
@@ -84,7 +87,8 @@ def install(lw):
         si(self, results, input, **kw)
         try:
             circmon.STATS["sampres_init_postconditions"] += 1
-            if dict(self) != given or list(self.outputs) != list(given.keys()) or self.input != input:
+            if dict(self) != given or list(self.outputs) != list(given.keys()) or self.input != input \
+                    or len(dict(self)) != len({tuple(int(x_) for x_ in s_) for s_ in results}):
                 circmon.report("C17", "SamplingResult does not return the counts it was built from",
                                monitor="SamplingResult.__init__", mechanism="sampres_counts")
             for s, v in given.items():
@@ -178,7 +182,7 @@ def run(ctx):
     SR, SM = lw.emulator.results.SimulationResult, lw.emulator.results.SamplingResult
     while not ctx.out_of_time():
         k = int(rng.integers(1, 7)) if rng.random() < 0.95 else int(rng.choice([0, 9, 12]))
-        max_occ = int(rng.choice([1, 2, 4, 9]))
+        max_occ = int(rng.choice([1, 2, 4, 9, 9, 12, 30, 111]))      # (two-digit occupations: |1,20> is not |12,0>)
         n_in = int(rng.integers(1, 7))
         n_out = int(rng.integers(1, 21))
 
@@ -207,8 +211,25 @@ def run(ctx):
             if state_form == "tuple":
                 return State(tuple(int(x) for x in occ))
             return State([int(x) for x in occ])
-        ins = list(dict.fromkeys(rs() for _ in range(n_in)))
-        outs = list(dict.fromkeys(rs() for _ in range(n_out)))
+        def uniq(states):
+            # distinct by occupation list - decided here, not by the State class under test
+            seen_, out_ = set(), []
+            for st_ in states:
+                key_ = tuple(int(x_) for x_ in st_)
+                if key_ not in seen_:
+                    seen_.add(key_)
+                    out_.append(st_)
+            return out_
+        ins = uniq(rs() for _ in range(n_in))
+        outs = uniq(rs() for _ in range(n_out))
+        if not wide and k >= 2 and rng.random() < 0.05:
+            from ..gen import confusable_occupations
+            fam = [State(o) for o in confusable_occupations(rng, k)]
+            if len(fam) >= 2:
+                outs = uniq(outs[: max(1, n_out // 2)] + fam)
+                if rng.random() < 0.5:
+                    ins = uniq(ins[:1] + fam[:2])
+                ctx.bucket("states_whose_digits_read_the_same")
         kind = str(rng.choice(["probability", "probability", "probability_amplitude"]))
         cplx = kind == "probability_amplitude"   # complex values only make sense as amplitudes
         arr = rng.random((len(ins), len(outs)))
